@@ -507,7 +507,7 @@ theorem checkCore_expected (ch : Choices) (g : Geometry) (md : Option GeometryMe
     intro ia hia
     have hi := hLmem ia hia
     obtain ⟨e, _, he⟩ := encodeAttribute_of_index ch g md opts bs encs hf ia.1 ia.2 hi
-    exact ⟨specAttFacts ch opts g.numPoints ia.1 ia.2 e hok.points (hok.atts _ _ hi) he, hok.atts _ _ hi⟩
+    exact ⟨specAttFacts (ch.resolved g opts) opts g.numPoints ia.1 ia.2 e hok.points (hok.atts _ _ hi) he, hok.atts _ _ hi⟩
   have hg' : (expected g opts).atts = L.map fun ia => expectedAttributeOf opts g.numPoints ia.1 ia.2 := rfl
   have hgs : (expectedSkip allTypes g opts).atts =
       L.map fun ia => expectedSkipAttributeOf allTypes opts g.numPoints ia.1 ia.2 := rfl
